@@ -252,6 +252,11 @@ def gen_features(rng):
         spec['solves'] = [[k, float(rng.choice([0.0, round(rng.uniform(-0.5, 0.5) * a, 4)]))]]
     if rng.random() < 0.05:
         spec['image_surface_class'] = True
+    if fres and rng.random() < 0.5:
+        ks_ = [k_ for k_, s_ in enumerate(surfs[:-1], start=1) if s_.get('coating') == 'fresnel' and s_.get('medium') != 'mirror'
+               and k_ < K - 1 and surfs[k_].get('medium') != 'mirror']
+        if ks_:
+            spec['index_after_coating'] = [[int(ks_[int(rng.integers(len(ks_)))]), round(float(rng.uniform(1.35, 1.9)), 5)]]
     return dict(kind='features', spec=spec, **_rays(rng))
 
 
@@ -351,6 +356,10 @@ def apply_features(lens, spec, rec):
             lens.set_radius(st[2], st[1])
         else:
             lens.set_conic(st[2], st[1])
+    # a medium edited after the Fresnel coatings were made (the coating keeps the media it was built with: the reloaded
+    # lens must behave like THIS lens, not like a freshly coated one)
+    for k_, v_ in spec.get('index_after_coating', []):
+        lens.set_index(v_, k_)
 
 
 def apply_ops(lens, ops, spec, rec):
@@ -501,13 +510,16 @@ def trace_all(lens, case):
     for j, w in enumerate(lens.wavelengths.wavelengths):
         wl = w.value
         try:
-            lens.trace_generic(np.zeros(n), np.array(case['Hy']), np.array(case['Px']), np.array(case['Py']), wl)
+            ret = lens.trace_generic(np.zeros(n), np.array(case['Hy']), np.array(case['Px']), np.array(case['Py']), wl)
             out[f'generic-wl{j}'] = {q: np.array(getattr(sg, q), dtype=float) for q in RAYFIELDS}
+            # the RETURNED intensities too: under polarization the coating losses are only in them, not in the records
+            out[f'generic-wl{j}']['returned_i'] = np.array(ret.i, dtype=float)
         except Exception as e:
             out[f'generic-wl{j}'] = ('raises', type(e).__name__, str(e)[:80])
     try:
-        lens.trace(0.0, float(case.get('fanHy', 1.0)), lens.primary_wavelength, num_rays=2, distribution='hexapolar')
+        ret = lens.trace(0.0, float(case.get('fanHy', 1.0)), lens.primary_wavelength, num_rays=2, distribution='hexapolar')
         out['fan'] = {q: np.array(getattr(sg, q), dtype=float) for q in RAYFIELDS}
+        out['fan']['returned_i'] = np.array(ret.i, dtype=float)
     except Exception as e:
         out['fan'] = ('raises', type(e).__name__, str(e)[:80])
     return out
@@ -709,8 +721,10 @@ def rays_diff(a, b):
             if x != y:
                 return f'{strip_wl(t)}-raises'
             continue
-        for q in RAYFIELDS:
-            if x[q].shape != y[q].shape or not np.array_equal(x[q], y[q], equal_nan=True):
+        for q in list(RAYFIELDS) + ['returned_i']:
+            if q not in x and q not in y:
+                continue
+            if (q in x) != (q in y) or x[q].shape != y[q].shape or not np.array_equal(x[q], y[q], equal_nan=True):
                 return f'{strip_wl(t)}-{q}'
     return None
 
